@@ -207,8 +207,60 @@ def gen_roadm_params(rng):
     r = rng.random()
     if r < 0.3:
         return {}
+    if r < 0.42:
+        # the other two equalisation policies of a ROADM: constant power spectral density (mW/GHz, against the reference
+        # baud rate) and constant power per slot width (mW/GHz, against the reference slot width)
+        if r < 0.37:
+            return {'target_psd_out_mWperGHz': rng.choice([3.125e-4, 5e-4, 2e-4, 4.3e-4])}
+        return {'target_out_mWperSlotWidth': rng.choice([2e-4, 3e-4, 1.6e-4])}
     p = {'target_pch_out_db': rng.choice([-20, -18, -25, -17.3, -22.5])}
     return p
+
+
+def roadm_ref_power(params, eq):
+    """reference-channel power (dBm) a ROADM with the case parameters `params` sends out (own reading of the three
+    equalisation policies against the reference carrier of the library: SI baud rate / SI spacing)"""
+    si = eq['SI']['default']
+    if 'target_pch_out_db' in params:
+        return float(params['target_pch_out_db'])
+    if 'target_psd_out_mWperGHz' in params:
+        return 10 * math.log10(params['target_psd_out_mWperGHz'] * si.baud_rate * 1e-9)
+    if 'target_out_mWperSlotWidth' in params:
+        return 10 * math.log10(params['target_out_mWperSlotWidth'] * si.spacing * 1e-9)
+    return float(eq['Roadm']['default'].target_pch_out_db)
+
+
+def raman_before_estimate_topology(case):
+    """the documented topology class of the open finding raman-gain-before-estimate: a RamanFiber whose span is opened by
+    an amplifier that gets its power target from the design (the booster behind a ROADM, an inline amplifier inserted behind
+    a fibre, a user amplifier without operator delta_p), or a RamanFiber spliced through Fused to a following fibre"""
+    for ch in all_chains(case):
+        line = ch['line']
+        for j, e in enumerate(line):
+            if e['type'] != 'RamanFiber':
+                continue
+            # forwards over Fused: a fibre in the same run
+            k = j + 1
+            while k < len(line) and line[k]['type'] == 'Fused':
+                k += 1
+            if k < len(line) and k > j + 1 and line[k]['type'] in ('Fiber', 'RamanFiber'):
+                return True
+            # backwards to the start of the run (fibres spliced by Fused), then the element that opens the span
+            k = j
+            while k > 0 and (line[k - 1]['type'] == 'Fused'
+                             or (line[k - 1]['type'] in ('Fiber', 'RamanFiber') and line[k]['type'] == 'Fused')):
+                k -= 1
+            first = line[k]['type']
+            if k == 0:
+                if ch['src'].startswith('R') and first in ('Fiber', 'RamanFiber'):
+                    return True                 # automatic booster
+                continue
+            opener = line[k - 1]
+            if opener['type'] in ('Fiber', 'RamanFiber'):
+                return True                     # automatic inline amplifier
+            if opener['type'] == 'Edfa' and (opener.get('operational') or {}).get('delta_p') is None:
+                return True
+    return False
 
 
 def gen_case(rng, tier, widen=False, raman_rate=0.08, raman_crash_rate=0.01, trx_src_rate=0.12, eol_zero=False,
@@ -350,6 +402,9 @@ def design_band_of(case, ch, eq):
         first = next((c for c in case['chains'] if c['src'] == ch['src']), None)
         if first is ch and design_degree_key(case, ch['src']):
             return d['f_min'], d['f_max'], d['spacing']
+    if (case.get('roadm_bands') or {}).get(ch['src']) == 1:
+        b = BANDS_CL[0]                 # an explicit single design band on the ROADM
+        return b['f_min'], b['f_max'], b['spacing']
     return si.f_min, si.f_max, si.spacing
 
 
@@ -498,6 +553,19 @@ def chains_of(net, case):
                 res[i] = elems
                 ends[i] = end
                 break
+    # a chain none of whose elements kept a recognisable name: the only line from its source to its destination
+    for i, ch in enumerate(all_chains(case)):
+        if res[i] is not None:
+            continue
+        taken = {id(r[0]) for r in res if r}
+        for first in net.successors(by[ch['src']]):
+            if isinstance(first, (E.Roadm, E.Transceiver)) or id(first) in taken:
+                continue
+            elems, end = walk_from(net, first)
+            if end is not None and end.uid == ch['dst']:
+                res[i] = elems
+                ends[i] = end
+                break
     return res, ends
 
 
@@ -609,7 +677,9 @@ def shrink_candidates(case):
         c = copy.deepcopy(case)
         del c['roadm_design'][r]
         yield c
-    for r in list(case.get('roadm_bands') or {}):
+    for r, nb in list((case.get('roadm_bands') or {}).items()):
+        if nb > 1 and any(e['type'] == 'Multiband_amplifier' for ch in all_chains(case) if ch['src'] == r for e in ch['line']):
+            continue        # a Multiband_amplifier behind a single-band ROADM is not a well-formed input
         c = copy.deepcopy(case)
         del c['roadm_bands'][r]
         yield c
